@@ -45,7 +45,7 @@ fn chunk(u: &mut Unstructured) -> Result<u32> {
 
 fn cop(u: &mut Unstructured, cap: u32, allow_flood: bool) -> Result<COp> {
     let to = pick(u, &[1u8, 2])?;
-    Ok(match u.int_in_range(0u8..=(if allow_flood { 9 } else { 8 }))? {
+    Ok(match u.int_in_range(0u8..=(if allow_flood { 10 } else { 9 }))? {
         0 => COp::ReadIn(chunk(u)?),
         1 => COp::ReadAll(chunk(u)?),
         2 => COp::Copy { n: chunk(u)?, to },
@@ -54,6 +54,7 @@ fn cop(u: &mut Unstructured, cap: u32, allow_flood: bool) -> Result<COp> {
         6 => COp::Close(u.int_in_range(0u8..=2)?),
         7 => COp::Sleep(pick(u, &[1_000u64, 1_000_000, 50_000_000, 2_000_000_000, 26 * 86400 * 1_000_000_000])?),
         8 => COp::Exit,
+        9 => COp::FloodUntilInput { to, chunk: chunk(u)?, need: 0 },
         _ => COp::Flood { to, chunk: chunk(u)? },
     })
 }
@@ -110,6 +111,12 @@ pub fn simk_case(u: &mut Unstructured, forced: Option<c::Focus>) -> Result<(c::F
             time = None;
         }
         reads.push(c::ReadSpec { size: if i == 0 && focus == c::Focus::C03 && size_l.is_none() { Some(4096) } else { size_l }, time_ns: time });
+    }
+    if focus == c::Focus::C03 && u.ratio(1u8, 4u8)? {
+        // a steady run of equally limited reads (input-delivery oracle)
+        let last = reads.last().cloned().unwrap();
+        let k = u.int_in_range(24usize..=48)?;
+        reads.extend(std::iter::repeat(last).take(k));
     }
     let nsched = u.int_in_range(0usize..=60)?;
     let mut sched = vec![];
@@ -173,7 +180,7 @@ pub fn proc_case(u: &mut Unstructured, forced: Option<p::Focus>) -> Result<(p::F
         _ => Some(u.int_in_range(0u64..=4_000_000_000_000)?),
     };
     let exit_signal = if u.ratio(2u8, 5u8)? { Some((u.int_in_range(1u8..=64)?, u.arbitrary()?)) } else { None };
-    let plan = ProcPlan { exit_after, exit_code: u.arbitrary()?, exit_signal, on_term: reaction(u)?, on_other: reaction(u)?, kill_delay: delay(u)?, cost_ns: pick(u, &[0u32, 1_000, 50_000])?, setpgid: u.ratio(1u8, 4u8)? };
+    let plan = ProcPlan { exit_after, exit_code: u.arbitrary()?, exit_signal, on_term: reaction(u)?, on_other: reaction(u)?, kill_delay: delay(u)?, cost_ns: pick(u, &[0u32, 1_000, 50_000])?, setpgid: u.ratio(1u8, 4u8)?, eintr_waits: if u.ratio(1u8, 5u8)? { u.int_in_range(1u8..=3)? } else { 0 } };
     let nops = u.int_in_range(0usize..=24)?;
     let mut ops = vec![];
     let dur = |u: &mut Unstructured| -> Result<u64> {
@@ -201,7 +208,7 @@ pub fn proc_case(u: &mut Unstructured, forced: Option<p::Focus>) -> Result<(p::F
         });
     }
     if u.ratio(1u8, 2u8)? {
-        ops.push(p::HOp::Drop);
+        ops.push(if u.ratio(1u8, 4u8)? { p::HOp::DropUnwinding } else { p::HOp::Drop });
     }
     Ok((focus, p::ProcCase { plan, ops }))
 }
